@@ -122,6 +122,8 @@ static bool supported_kind(int k) { return k == c05::SK_DNS || k == c05::SK_EMAI
 static bool ref_cn_string(const CertNames &cn, S &out) {
     if (!cn.has_cn) return false;
     if (cn.cn_type == c05::CN_BIT) return false; // not a character string
+    // CN_BITRAW (BIT STRING whose content octets are the name itself): a consumer that treats the content as an 8-bit string is tolerated, so the
+    // content is judged like the 8-bit string types - in particular it can never match when it contains a NUL or another non-printable byte
     if (cn.cn_type == c05::CN_BMP) {
         if (cn.cn.size() % 2) return false;
         out.clear();
@@ -149,7 +151,16 @@ static bool ref_accept(const S &E, int nameType, unsigned mFlags, const CertName
 }
 
 // Relation of a certificate-side string to E (for statistics / the non-trivial rule only).
+static bool bit_neighbour(const S &a, const S &b) { // equal length, exactly one byte differs, and that byte in exactly one bit
+    if (a.size() != b.size()) return false;
+    int diff = -1;
+    for (size_t i = 0; i < a.size(); i++) if (a[i] != b[i]) { if (diff >= 0) return false; diff = (int) i; }
+    if (diff < 0) return false;
+    unsigned x = (unsigned char) (a[diff] ^ b[diff]);
+    return (x & (x - 1)) == 0;
+}
 static const char *relation(const S &E, const S &N) {
+    if (bit_neighbour(E, N) && !ieq(E, N)) return printable(N) ? "bit1" : (N.find('\0') != S::npos ? "bit1-nul" : "bit1-nonprintable");
     if (N.find('\0') != S::npos) return (N.size() >= 2 && N.find('\0') == N.size() - 1) ? "nul-trailing" : "nul-embedded";
     if (!printable(N)) return "nonprintable";
     if (N == E) return "equal";
@@ -241,11 +252,12 @@ static Exp gen_expected(Tape &t) {
 // derivation operators: how a certificate-side string is made from a base string (usually E)
 enum Rel { R_SAME = 0, R_CASE, R_PREFIX, R_EXTEND, R_SUFFIX, R_PREPEND, R_DROP_LABEL, R_ADD_LABEL, R_DROP_LAST, R_ADD_LAST, R_WILD1, R_WILD2,
            R_WILD_ALL, R_WILD_MID, R_WILD_PART, R_WILD_DBL, R_WILD_PLUS, R_TRAIL_DOT, R_NUL_EMBED, R_NUL_TRAIL, R_NUL_TRAIL2, R_CTRL, R_BIT8,
-           R_EDIT1, R_EDIT2, R_SWAP, R_LOCAL_DIFF, R_EMAIL_WRAP, R_NREL };
+           R_EDIT1, R_EDIT2, R_SWAP, R_LOCAL_DIFF, R_EMAIL_WRAP, R_BITFLIP, R_NREL };
 static const char *RELN[] = { "same", "case", "prefix", "extend", "suffix", "prepend", "drop-label", "add-label", "drop-last", "add-last", "wild1", "wild2",
                               "wild-all", "wild-mid", "wild-part", "wild-dbl", "wild-plus", "trail-dot", "nul-embed", "nul-trail", "nul-trail2", "ctrl", "bit8",
-                              "edit1", "edit2", "swap", "local-diff", "email-wrap" };
-static const uint8_t RELW[R_NREL] = { 6, 4, 3, 3, 3, 2, 3, 3, 2, 2, 5, 3, 1, 2, 2, 2, 2, 2, 2, 5, 1, 1, 1, 3, 1, 1, 2, 1 };
+                              "edit1", "edit2", "swap", "local-diff", "email-wrap", "bitflip" };
+// R_BITFLIP has weight 0 here: it is applied by the late-drawn override step of prop() (gen_late) so that tapes recorded before it existed decode unchanged
+static const uint8_t RELW[R_NREL] = { 6, 4, 3, 3, 3, 2, 3, 3, 2, 2, 5, 3, 1, 2, 2, 2, 2, 2, 2, 5, 1, 1, 1, 3, 1, 1, 2, 1, 0 };
 static int pick_rel(Tape &t) {
     unsigned tot = 0; for (int i = 0; i < R_NREL; i++) tot += RELW[i];
     unsigned x = (unsigned) t.below(tot);
@@ -314,6 +326,10 @@ static S derive(Tape &t, const S &base, int op) {
         return nl + base.substr(at);
     }
     case R_EMAIL_WRAP: { size_t at = base.find('@'); return at == S::npos ? gen_local(t) + "@" + base : base.substr(at + 1); }
+    case R_BITFLIP: { // one character replaced by a byte that differs from it in exactly one bit (any of the 8 bits, letter and non-letter positions alike)
+        if (base.empty()) return "a";
+        S s = base; size_t k = t.below(s.size()); s[k] = (char) ((unsigned char) s[k] ^ (1u << t.below(8))); return s;
+    }
     }
     return base;
 }
@@ -504,10 +520,86 @@ static Extras gen_extras(Tape &t, const Exp &E, bool clean) {
     return x;
 }
 
+// Validation scenario (late-drawn).  What "MatrixSSL accepts the name" means in each:
+//   SC_PLAIN  leaf valid in time, signed by the trusted test CA:          rc == PS_SUCCESS, authStatus PASS, no SUBJECT flag.
+//   SC_DATED  leaf expired / not yet valid (single-certificate chain), caller tolerates exactly that: the API reports authStatus ==
+//             PS_CERT_AUTH_FAIL_EXTENSION with authFailFlags == PS_CERT_AUTH_FAIL_DATE_FLAG and nothing else ("all can be accessed with
+//             authFailFlags", x509.c; MatrixSSL_API.pdf, certificate callback: a callback for which CERTIFICATE_EXPIRED can be ignored walks the chain
+//             and looks at authStatus / authFailFlags; the dev guide tells platforms without a date function to do exactly this).  A name mismatch has
+//             to show up as PS_CERT_AUTH_FAIL_SUBJECT_FLAG next to the date flag, otherwise such a caller accepts a certificate issued for another name.
+//   SC_SELF   self-signed leaf validated with issuerCerts == NULL (the documented way "to validate a single, self-signed certificate",
+//             MatrixSSL_CertificatesAndCRLs.pdf 2.1.5; matrixssl/test/certValidate.c does it): same criterion as SC_PLAIN.
+enum { SC_PLAIN = 0, SC_DATED, SC_SELF };
+static const char *SCN[] = { "plain", "dated-leaf+date-tolerant-caller", "self-signed+no-issuer-list" };
+// ------------------------------------------------------------------ late-drawn dimensions (drawn after gen_extras: older tapes decode unchanged, all-zero = none)
+// (a) single-bit neighbours: the subject CN or one subjectAltName entry is replaced by E (or the one-label wildcard of E, or a case variant of E) with ONE
+//     character replaced by the byte that differs from it in exactly one bit - all 8 bit positions, letter and non-letter positions ('.' ~ 0x0e '/' ',' '*' '&' ...,
+//     '-' ~ 0x0d, digits ~ 0x10-0x19 'p'-'y', '@' ~ '`' NUL ...).  Control characters can reach the matcher only through the CN (SAN strings with
+//     non-printable bytes make the parser refuse the certificate), so the CN gets the raw neighbour and SAN entries prefer a printable one.
+// (b) hidden NUL in a CN of every string type incl. BIT STRING with raw content octets (CN_BITRAW): E / wildcard of E + NUL + tail.
+// (c) CN of type CN_BITRAW with an ordinary derived value.
+// (d) the validation scenario (SC_*).
+struct Late { int scen = SC_PLAIN; int validity = c05::VAL_OK; S what = "-"; };
+static S flip_printable(Tape &t, const S &base) { // R_BITFLIP, but keep the result printable when some bit of the chosen character allows it
+    if (base.empty()) return "a";
+    S s = base; size_t k = t.below(s.size()); unsigned b = (unsigned) t.below(8);
+    bool keep_raw = t.below(8) == 0;
+    for (unsigned i = 0; i < 8; i++, b = (b + 1) & 7) {
+        unsigned char ch = (unsigned char) s[k] ^ (unsigned char) (1u << b);
+        if (keep_raw || (ch >= 0x20 && ch <= 0x7e)) { s[k] = (char) ch; return s; }
+    }
+    s[k] = (char) ((unsigned char) s[k] ^ 1u); return s;
+}
+static Late gen_late(Tape &t, const Exp &E, bool smoke, CertNames &cn, S &cn_how, std::vector<Ent> &ents) {
+    Late L;
+    static const int ALLT[] = { c05::CN_UTF8, c05::CN_PRINTABLE, c05::CN_IA5, c05::CN_T61, c05::CN_BMP, c05::CN_BIT, c05::CN_BITRAW, c05::CN_BITRAW };
+    unsigned m = (unsigned) t.below(16);
+    auto base_form = [&](void) -> S { // E, the one-label wildcard of E, or a case variant
+        unsigned f = (unsigned) t.below(4);
+        return f == 2 ? derive(t, E.text, R_WILD1) : f == 3 ? case_flip(t, E.text) : E.text;
+    };
+    auto set_cn = [&](const S &v, int type, const char *how) {
+        cn.has_cn = true; cn.cn_type = type; cn.cn = v.empty() ? S("a") : v; cn_how = how;
+        if (type == c05::CN_BMP) { S w; for (unsigned char ch : cn.cn) { w += '\0'; w += (char) ch; } cn.cn = w; }
+    };
+    if (!smoke && m >= 9) {
+        if (m <= 11 || (m <= 13 && ents.empty())) {            // (a) CN := single-bit neighbour
+            static const int CT8[] = { c05::CN_UTF8, c05::CN_UTF8, c05::CN_PRINTABLE, c05::CN_IA5, c05::CN_T61, c05::CN_UTF8, c05::CN_BMP, c05::CN_BITRAW };
+            S v = derive(t, base_form(), R_BITFLIP);
+            set_cn(v, cn.has_cn && cn.cn_type != c05::CN_BIT ? cn.cn_type : CT8[t.below(8)], "E:bitflip");
+            L.what = "cn-bitflip";
+        } else if (m <= 13) {                                   // (a) one SAN entry := single-bit neighbour (entry of any kind)
+            Ent &e = ents[t.below(ents.size())];
+            if (e.e.kind == c05::SK_IP) {
+                S o = E.kind == EK_IP ? S((const char *) E.ip, 4) : (e.e.data.size() >= 4 ? e.e.data.substr(0, 4) : S("\x0a\x00\x00\x01", 4));
+                e.e.data = derive(t, o, R_BITFLIP); e.how = "E:ip-bitflip";
+            } else { e.e.data = flip_printable(t, base_form()); e.how = "E:bitflip"; }
+            e.fromE = true;
+            L.what = "san-bitflip";
+        } else if (m == 14) {                                   // (b) hidden NUL, every CN encoding
+            static const char *TAIL[] = { ".b", ".evil.org", "x", "" };
+            S v = base_form() + S(1, '\0') + TAIL[t.below(4)];
+            set_cn(v, ALLT[t.below(8)], "E:hidden-nul");
+            L.what = "cn-hidden-nul";
+        } else {                                                // (c) raw BIT STRING CN with an ordinary derived value
+            bool fromE = t.below(4) != 0; int op = pick_rel(t);
+            S v = derive(t, fromE ? E.text : gen_host(t), op);
+            set_cn(v, c05::CN_BITRAW, "bitraw");
+            cn_how = S(fromE ? "E:" : "rnd:") + RELN[op] + "/bitraw";
+            L.what = "cn-bitraw";
+        }
+    }
+    // (d) scenario: 10/16 plain, 4/16 dated leaf (expired or not yet valid), 2/16 self-signed without issuer list
+    unsigned sm = (unsigned) t.below(16);
+    if (sm >= 10 && sm < 14) { L.scen = SC_DATED; L.validity = (sm & 1) ? c05::VAL_NOT_YET : c05::VAL_EXPIRED; }
+    else if (sm >= 14) L.scen = SC_SELF;
+    return L;
+}
+
 // ------------------------------------------------------------------ running the real code
 struct Verdict { int parse_rc = 0; int rc = 0; int auth = 0; int flags = 0; bool parsed = false; bool accept = false; bool san_misaligned = false; size_t san_parsed = 0; S structural; };
 
-static Verdict evaluate(const Bytes &der, const LeafSpec &sp, const char *expected /* may be NULL */, int nameType, unsigned mFlags, unsigned vflags) {
+static Verdict evaluate(const Bytes &der, const LeafSpec &sp, const char *expected /* may be NULL */, int nameType, unsigned mFlags, unsigned vflags, int scen = SC_PLAIN) {
     Verdict v;
     psX509Cert_t *leaf = nullptr;
     v.parse_rc = psX509ParseCert(NULL, der.data(), (uint32) der.size(), &leaf, CERT_STORE_UNPARSED_BUFFER);
@@ -538,29 +630,47 @@ static Verdict evaluate(const Bytes &der, const LeafSpec &sp, const char *expect
         std::unique_ptr<char[]> e;
         if (expected) { size_t l = strlen(expected); e.reset(new char[l + 1]); memcpy(e.get(), expected, l + 1); } // exact-size heap copy: over-reads are visible to ASan
         psX509Cert_t *found = nullptr;
-        v.rc = matrixValidateCertsExt(NULL, leaf, g_ca[sp.issuer & 1], e.get(), &found, NULL, NULL, &o);
+        v.rc = matrixValidateCertsExt(NULL, leaf, scen == SC_SELF ? NULL : g_ca[sp.issuer & 1], e.get(), &found, NULL, NULL, &o);
         v.auth = leaf->authStatus; v.flags = (int) leaf->authFailFlags;
         v.accept = v.rc == PS_SUCCESS && leaf->authStatus == PS_CERT_AUTH_PASS && !(leaf->authFailFlags & PS_CERT_AUTH_FAIL_SUBJECT_FLAG);
+        if (scen == SC_DATED && !v.accept) // the date is the only thing the API has against this certificate
+            v.accept = v.rc == PS_CERT_AUTH_FAIL_EXTENSION && leaf->authStatus == PS_CERT_AUTH_FAIL_EXTENSION && leaf->authFailFlags == PS_CERT_AUTH_FAIL_DATE_FLAG;
     }
     psX509FreeCert(leaf);
     return v;
 }
 
 struct HsResult { bool ran = false; bool client_complete = false; bool server_complete = false; int open_rc = 0; int alert_at_server = -1; int srv_load_rc = 0; };
-static HsResult handshake(int issuer, const Bytes &leaf, const S &E, int nameType, unsigned mFlags, unsigned vflags, int ver, uint64_t eseed, int client_trust = -1) {
+// A certificate callback written after MatrixSSL_API.pdf "The Certificate Validation Callback Function" for a use case in which CERTIFICATE_EXPIRED can
+// be ignored: it does not simply return 0 for that alert but walks the chain and continues only if every certificate either authenticated fully or
+// has nothing against it but its validity dates.
+static int32 date_tolerant_cb(ssl_t *ssl, psX509Cert_t *cert, int32 alert) {
+    (void) ssl;
+    if (alert == 0) return 0;
+    if (alert != SSL_ALERT_CERTIFICATE_EXPIRED) return alert;
+    for (psX509Cert_t *c = cert; c; c = c->next) {
+        if (c->authStatus == PS_CERT_AUTH_PASS) continue;
+        if (c->authStatus == PS_CERT_AUTH_FAIL_EXTENSION && c->authFailFlags == PS_CERT_AUTH_FAIL_DATE_FLAG) continue;
+        return SSL_ALERT_BAD_CERTIFICATE;
+    }
+    return 0;
+}
+static HsResult handshake(int issuer, const Bytes &leaf, const S &E, int nameType, unsigned mFlags, unsigned vflags, int ver, uint64_t eseed, int client_trust = -1, sslCertCb_t client_cb = nullptr) {
     HsResult r;
     sslKeys_t *sk = nullptr;
     if (matrixSslNewKeys(&sk, NULL) < 0) return r;
     const Bytes &key = c05::leaf_key_der(issuer);
     int auth = issuer == c05::ISS_RSA ? mxh::AUTH_RSA : mxh::AUTH_EC;
-    r.srv_load_rc = issuer == c05::ISS_RSA ? matrixSslLoadRsaKeysMem(sk, leaf.data(), (int32) leaf.size(), key.data(), (int32) key.size(), NULL, 0)
-                                           : matrixSslLoadEcKeysMem(sk, leaf.data(), (int32) leaf.size(), key.data(), (int32) key.size(), NULL, 0);
+    matrixSslLoadKeysOpts_t lo; memset(&lo, 0, sizeof lo);
+    lo.flags = LOAD_KEYS_OPT_ALLOW_OUT_OF_DATE_CERT_PARSE; // the *server* may present an expired certificate (SC_DATED); what the client makes of it is the subject
+    lo.key_type = issuer == c05::ISS_RSA ? PS_RSA : PS_ECC;
+    r.srv_load_rc = matrixSslLoadKeysMem(sk, leaf.data(), (int32) leaf.size(), key.data(), (int32) key.size(), NULL, 0, &lo);
     if (r.srv_load_rc >= 0) {
         vfh_entropy_reset(eseed);
         mxh::Pair p;
         mxh::Config sc, cc;
         sc.client = false; sc.versions = { ver }; sc.auth = auth; sc.keys = sk; sc.entropy_stream = 1;
-        cc.client = true; cc.versions = { ver }; cc.auth = client_trust >= 0 ? client_trust : auth; cc.expected_name = E.c_str(); cc.entropy_stream = 0;
+        cc.client = true; cc.versions = { ver }; cc.auth = client_trust >= 0 ? client_trust : auth; cc.expected_name = E.c_str(); cc.entropy_stream = 0; cc.cert_cb = client_cb;
         cc.suites = { (uint16_t) (ver == mxh::TLS13 ? 0x1301 : issuer == c05::ISS_RSA ? 0xC02F : 0xC02B) };
         cc.tweak = [&](sslSessOpts_t &o) { o.validateCertsOpts.nameType = (expectedNameType_t) nameType; o.validateCertsOpts.mFlags = mFlags; o.validateCertsOpts.flags = vflags; };
         if (p.s.open(sc) >= 0) {
@@ -690,7 +800,6 @@ static void prop(Tape &t, Ctx &c) {
           }
           ents.push_back(e);
       } }
-    for (auto &e : ents) cn.san.push_back(e.e);
     bool crit = t.below(8) == 0;
     int issuer = t.below(16) == 15 ? c05::ISS_EC : c05::ISS_RSA; // RSA verification is ~10x cheaper under ASan; EC keeps the ECDSA path covered
     bool do_hs = t.below(g_hs_den) == 0;
@@ -700,6 +809,9 @@ static void prop(Tape &t, Ctx &c) {
     g_cur_x = nullptr;
     Extras X = gen_extras(t, E, smoke); // drawn last: tapes recorded before this dimension existed decode to the same (E, CN, SAN, permutations)
     g_cur_x = &X;
+    Late late = gen_late(t, E, smoke, cn, cn_how, ents); // drawn after everything else (see gen_late)
+    const int scen = late.scen;
+    for (auto &e : ents) cn.san.push_back(e.e);
 
     // ---- statistics and the non-trivial rule
     std::set<S> rels; bool nm = false;
@@ -746,6 +858,9 @@ static void prop(Tape &t, Ctx &c) {
         if (X.dnemail) { c.count("x-dn-email"); SanEntry e{ c05::SK_EMAIL, X.dnemailv }; if (would(e) || cn_would(X.dnemailv)) other_would = true; xkey += "|dnemail"; }
         if (other_would) c.count("other-non-subject-name-would-match-E");
     }
+    c.count(S("late-") + late.what); c.count(S("scenario-") + SCN[scen]); if (scen == SC_DATED) c.count(late.validity == c05::VAL_EXPIRED ? "leaf-expired" : "leaf-not-yet-valid");
+    if (cn.has_cn) c.count("cn-how-" + cn_how);
+    if (cn.has_cn && cn.cn_type != c05::CN_BMP && cn.cn.find('\0') != S::npos) c.count(fmt("cn-with-nul-type-%d", cn.cn_type));
     c.count(fmt("san-len-%zu", ents.size())); c.count(issuer == c05::ISS_EC ? "issuer-ec" : "issuer-rsa"); c.count(S("nameType-") + NTN[nameType]); c.count(fmt("mFlags-%u", mFlags)); c.count(S("E-kind-") + EKN[E.kind]);
     if (!E.judged) c.count("E-nonprintable-unjudged");
     if (smoke) c.count("smoke-cases");
@@ -754,7 +869,7 @@ static void prop(Tape &t, Ctx &c) {
     if (nm || ents.size() >= 2) {
         S key = shape + "|" + NTN[nameType] + "|" + std::to_string(mFlags) + "|";
         for (auto &r : rels) key += r + ",";
-        key += "|" + xkey;
+        key += "|" + xkey + "|" + SCN[scen];
         c.nontrivial(key);
         c.count("nontrivial");
     }
@@ -766,7 +881,25 @@ static void prop(Tape &t, Ctx &c) {
 
     // ---- run every permutation through the real code
     LeafSpec sp; sp.has_cn = cn.has_cn; sp.cn_type = cn.cn_type; sp.cn = cn.cn; sp.san_critical = crit; sp.issuer = issuer;
+    sp.validity = late.validity; sp.self_signed = scen == SC_SELF;
     X.apply(sp);
+    // An accept the reference refuses: name the root cause.  In a non-plain scenario the same names are first put into a plain certificate (valid dates,
+    // CA-signed, validated against the CA); only if that one is refused is the scenario itself what let the name through.
+    auto wrong_accept_sig = [&](void) -> S {
+        if (scen != SC_PLAIN) {
+            LeafSpec pl = sp; pl.validity = c05::VAL_OK; pl.self_signed = false; Extras none; none.apply(pl);
+            pl.san.clear(); for (auto &e : ents) pl.san.push_back(e.e);
+            Bytes d;
+            if (c05::mint_leaf(pl, d)) { Verdict pv = evaluate(d, pl, E.text.c_str(), nameType, mFlags, vflags, SC_PLAIN);
+                if (pv.parsed && !pv.accept) return scen == SC_DATED ? "name-not-checked-on-dated-leaf" : "name-not-checked-without-issuer-list"; }
+        }
+        if (cn.has_cn && cn.cn_type != c05::CN_BMP && cn.cn.find('\0') != S::npos) { // does the CN alone do it?
+            LeafSpec one; one.issuer = issuer; one.has_cn = true; one.cn_type = cn.cn_type; one.cn = cn.cn;
+            Bytes d;
+            if (c05::mint_leaf(one, d) && evaluate(d, one, E.text.c_str(), nameType == NT_ANY || nameType == NT_HOSTNAME ? nameType : NT_CN, 0, 0).accept) return "cn-hidden-nul-accepted";
+        }
+        return classify_wrong_accept(E.text, nameType, issuer, cn);
+    };
     std::vector<Verdict> vs; Bytes first_der;
     for (size_t pi = 0; pi < perms.size(); pi++) {
         sp.san.clear(); for (int i : perms[pi]) sp.san.push_back(ents[i].e);
@@ -774,7 +907,7 @@ static void prop(Tape &t, Ctx &c) {
         Bytes der;
         if (!c05::mint_leaf(sp, der)) { c.count("mint-failed"); throw Discard(); }
         if (pi == 0) first_der = der;
-        Verdict v = evaluate(der, sp, E.text.c_str(), nameType, mFlags, vflags);
+        Verdict v = evaluate(der, sp, E.text.c_str(), nameType, mFlags, vflags, scen);
         c.count("certs-evaluated");
         if (!v.structural.empty())
             VF_FAIL("unterminated-san-string", "%s | %s", v.structural.c_str(), describe(E, nameType, mFlags, vflags, cn, ents, &perms[pi]).c_str());
@@ -786,7 +919,7 @@ static void prop(Tape &t, Ctx &c) {
     c.count(!v0.parsed ? "verdict-parse-fail" : v0.accept ? "verdict-accept" : (v0.rc == PS_ARG_FAIL ? "verdict-arg-fail" : "verdict-reject"));
     if (v0.accept && !E.judged) c.count("accept-unjudged");
     if (ref && !v0.accept) c.count("stricter-than-reference");
-    c.sample(describe(E, nameType, mFlags, vflags, cn, ents, nullptr) + fmt(" perms=%zu -> %s (ref %s)", perms.size(), v0.accept ? "ACCEPT" : v0.parsed ? "reject" : "parse-fail", ref ? "accept" : "reject"));
+    c.sample(describe(E, nameType, mFlags, vflags, cn, ents, nullptr) + fmt(" scenario=%s perms=%zu -> %s (ref %s)", SCN[scen], perms.size(), v0.accept ? "ACCEPT" : v0.parsed ? "reject" : "parse-fail", ref ? "accept" : "reject"));
 
     // oracle 2: permutation invariance
     for (size_t pi = 1; pi < vs.size(); pi++) {
@@ -803,7 +936,7 @@ static void prop(Tape &t, Ctx &c) {
         sp0.serial = 0x1000;
         Bytes der0;
         if (!c05::mint_leaf(sp0, der0)) { c.count("mint-failed"); throw Discard(); }
-        Verdict ctl = evaluate(der0, sp0, E.text.c_str(), nameType, mFlags, vflags);
+        Verdict ctl = evaluate(der0, sp0, E.text.c_str(), nameType, mFlags, vflags, scen);
         c.count("control-certs-evaluated");
         if (!v0.parsed) c.count(ctl.parsed ? "x-parse-fail-caused-by-non-subject-field" : "x-parse-fail-also-without-non-subject-fields"); // generator health: the former must stay rare
         if (v0.accept && ctl.parsed && !ctl.accept)
@@ -811,19 +944,20 @@ static void prop(Tape &t, Ctx &c) {
                     ctl.rc, describe(E, nameType, mFlags, vflags, cn, ents, nullptr).c_str());
         if (ctl.accept && E.judged && !ref) { // oracle 1 on the control certificate (keeps the cases useful whose non-subject fields were refused by the parser)
             g_cur_x = nullptr;
-            VF_FAIL(classify_wrong_accept(E.text, nameType, issuer, cn), "matrixValidateCertsExt ACCEPTED but no name in the certificate matches per the property: %s",
-                    describe(E, nameType, mFlags, vflags, cn, ents, nullptr).c_str());
+            VF_FAIL(wrong_accept_sig(), "matrixValidateCertsExt ACCEPTED the name (scenario %s) but no name in the certificate matches per the property: %s",
+                    SCN[scen], describe(E, nameType, mFlags, vflags, cn, ents, nullptr).c_str());
         }
         if (v0.parsed && !v0.accept && ctl.accept) { c.count("extras-turn-accept-into-reject"); if (!X.ian.empty()) c.count("ian-turns-accept-into-reject"); }
     }
     // oracle 1: accepts => reference accepts
     if (v0.accept && E.judged && !ref)
-        VF_FAIL(classify_wrong_accept(E.text, nameType, issuer, cn), "matrixValidateCertsExt ACCEPTED but no name in the certificate matches per the property: %s",
-                describe(E, nameType, mFlags, vflags, cn, ents, nullptr).c_str());
+        VF_FAIL(wrong_accept_sig(), "matrixValidateCertsExt ACCEPTED the name (scenario %s: rc=%d authStatus=%d authFailFlags=0x%x) but no name in the certificate matches per the property: %s",
+                SCN[scen], v0.rc, v0.auth, v0.flags, describe(E, nameType, mFlags, vflags, cn, ents, nullptr).c_str());
+    if (v0.accept && !ref) c.count(S("accept-unjudged-") + SCN[scen]);
     // oracle 3: completeness smoke
     if (smoke && !v0.accept) {
         LeafSpec bare; bare.issuer = issuer;
-        Verdict ctl = evaluate(first_der, bare, NULL, NT_ANY, 0, 0); // same certificate without an expected name: is the chain itself fine?
+        Verdict ctl = evaluate(first_der, bare, NULL, NT_ANY, 0, 0, scen); // same certificate without an expected name: is the chain itself fine?
         if (ctl.accept)
             VF_FAIL("identical-dnsname-rejected", "E is byte-identical to a dNSName of a clean, otherwise valid certificate but was rejected (rc=%d parse=%d): %s",
                     v0.rc, v0.parse_rc, describe(E, nameType, mFlags, vflags, cn, ents, nullptr).c_str());
@@ -832,8 +966,9 @@ static void prop(Tape &t, Ctx &c) {
     if (smoke) c.count("smoke-accepted");
 
     // ---- sample: the same through matrixSslNewClientSession + handshake
-    if (do_hs && v0.parsed) {
-        HsResult h = handshake(issuer, first_der, E.text, nameType, mFlags, vflags, hs_ver, hs_seed);
+    if (do_hs && v0.parsed && scen != SC_SELF) { // (a client never reaches a self-signed server certificate's name: without its CA it is unknown_ca)
+        HsResult h = handshake(issuer, first_der, E.text, nameType, mFlags, vflags, hs_ver, hs_seed, -1, scen == SC_DATED ? date_tolerant_cb : nullptr);
+        if (scen == SC_DATED) c.count("hs-dated-leaf-with-date-tolerant-callback");
         if (h.srv_load_rc < 0) c.count("hs-server-key-load-failed");
         else if (!h.ran) c.count(h.open_rc == PS_ARG_FAIL ? "hs-expected-name-refused-by-api" : "hs-open-failed");
         else {
@@ -845,8 +980,8 @@ static void prop(Tape &t, Ctx &c) {
                 VF_FAIL("handshake-ignores-validation-error", "%s handshake COMPLETED although matrixValidateCertsExt refuses these options with PS_ARG_FAIL (no name check, no chain check was done): %s",
                         mxh::ver_name(hs_ver), describe(E, nameType, mFlags, vflags, cn, ents, nullptr).c_str());
             if (h.client_complete && !ref)
-                VF_FAIL(S("handshake-") + classify_wrong_accept(E.text, nameType, issuer, cn),"%s handshake COMPLETED with expectedName although no certificate name matches: %s",
-                        mxh::ver_name(hs_ver), describe(E, nameType, mFlags, vflags, cn, ents, nullptr).c_str());
+                VF_FAIL(S("handshake-") + wrong_accept_sig(),"%s handshake COMPLETED with expectedName (scenario %s) although no certificate name matches: %s",
+                        mxh::ver_name(hs_ver), SCN[scen], describe(E, nameType, mFlags, vflags, cn, ents, nullptr).c_str());
             // the direct call accepted this very certificate for E: a refusal *for the name* (certificate_unknown) contradicts it
             if (smoke && v0.accept && !h.client_complete && h.alert_at_server == SSL_ALERT_CERTIFICATE_UNKNOWN)
                 VF_FAIL("handshake-identical-dnsname-rejected", "%s handshake refused with certificate_unknown although E is byte-identical to a dNSName and matrixValidateCertsExt accepts it: %s",
@@ -857,10 +992,10 @@ static void prop(Tape &t, Ctx &c) {
 }
 
 // ------------------------------------------------------------------ development aid: hand-written scenarios (c05_names --probe [crash])
-static void probe_line(const char *title, int issuer, const S &E, int nameType, unsigned mFlags, const CertNames &cn) {
-    LeafSpec sp; sp.issuer = issuer; sp.has_cn = cn.has_cn; sp.cn = cn.cn; sp.cn_type = cn.cn_type; sp.san = cn.san;
+static void probe_line(const char *title, int issuer, const S &E, int nameType, unsigned mFlags, const CertNames &cn, int scen = SC_PLAIN, int validity = c05::VAL_OK) {
+    LeafSpec sp; sp.issuer = issuer; sp.has_cn = cn.has_cn; sp.cn = cn.cn; sp.cn_type = cn.cn_type; sp.san = cn.san; sp.validity = validity; sp.self_signed = scen == SC_SELF;
     Bytes der; if (!c05::mint_leaf(sp, der)) { printf("%s: mint failed\n", title); return; }
-    Verdict v = evaluate(der, sp, E.c_str(), nameType, mFlags, 0);
+    Verdict v = evaluate(der, sp, E.c_str(), nameType, mFlags, 0, scen);
     std::vector<Ent> ents; for (auto &e : cn.san) { Ent x; x.e = e; ents.push_back(x); }
     Exp X; X.text = E;
     printf("%-34s %s -> %s (parse=%d rc=%d authStatus=%d failFlags=0x%x) reference=%s%s%s\n", title, describe(X, nameType, mFlags, 0, cn, ents, nullptr).c_str(),
@@ -919,6 +1054,24 @@ static void run_probe(bool crash) {
         }
         g_cur_x = nullptr;
     }
+    {   // round 5: hidden NUL in a BIT STRING commonName; name check on a dated leaf / without issuer list
+        CertNames k; k.has_cn = true; k.cn = S("good.example.com\0.evil.org", 26);
+        for (int ty : { (int) c05::CN_UTF8, (int) c05::CN_BIT, (int) c05::CN_BITRAW }) { k.cn_type = ty; probe_line("hidden NUL in CN", 1, "good.example.com", NT_ANY, 0, k); }
+        k.cn = "good.example.com"; k.cn_type = c05::CN_BITRAW; probe_line("raw BIT STRING CN, no NUL", 1, "good.example.com", NT_ANY, 0, k);
+        san({ { c05::SK_DNS, "other.example" } });
+        for (const char *e : { "other.example", "good.example.com" }) {
+            probe_line("plain leaf", 1, e, NT_ANY, 0, c);
+            probe_line("expired leaf", 1, e, NT_ANY, 0, c, SC_DATED, c05::VAL_EXPIRED);
+            probe_line("not-yet-valid leaf", 1, e, NT_ANY, 0, c, SC_DATED, c05::VAL_NOT_YET);
+            probe_line("self-signed, issuerCerts=NULL", 1, e, NT_ANY, 0, c, SC_SELF);
+        }
+        LeafSpec sp; sp.issuer = 1; sp.san = c.san; sp.validity = c05::VAL_EXPIRED; Bytes der; c05::mint_leaf(sp, der);
+        for (int ver : { (int) mxh::TLS12, (int) mxh::TLS13 }) for (const char *e : { "other.example", "good.example.com" }) {
+            HsResult a = handshake(1, der, e, NT_ANY, 0, 0, ver, 3), b = handshake(1, der, e, NT_ANY, 0, 0, ver, 3, -1, date_tolerant_cb);
+            printf("%s handshake, expired leaf SAN=[D:other.example], E=\"%s\": no callback -> complete=%d (alert at server %d) ; date-tolerant callback -> complete=%d (alert at server %d)\n",
+                   mxh::ver_name(ver), e, a.client_complete, a.alert_at_server, b.client_complete, b.alert_at_server);
+        }
+    }
     if (crash) { san({ { c05::SK_DNS, S("x\0", 2) }, { c05::SK_DNS, "a.b" } });       probe_line("f6 dNSName after NUL-terminated", 1, "a.b", NT_SAN_DNS, 0, c); }
 }
 
@@ -950,6 +1103,18 @@ void vf_global_init(int argc, char **argv) {
         if (!a.accept || b.accept || !n.accept) {
             fprintf(stderr, "[c05] self-test failed (issuer %d): parse=%d match rc=%d accept=%d ; mismatch rc=%d accept=%d ; no-name rc=%d accept=%d\n", iss, a.parse_rc, a.rc, a.accept, b.rc, b.accept, n.rc, n.accept);
             abort();
+        }
+        {   // scenario self-tests: with the RIGHT name a dated leaf has nothing but the date flag against it, and a self-signed leaf passes without issuer list
+            LeafSpec d = sp; d.validity = c05::VAL_EXPIRED; Bytes dd; LeafSpec ny = sp; ny.validity = c05::VAL_NOT_YET; Bytes nd; LeafSpec ss = sp; ss.self_signed = true; Bytes sd;
+            LeafSpec br = sp; br.cn_type = c05::CN_BITRAW; Bytes bd;
+            if (!c05::mint_leaf(d, dd) || !c05::mint_leaf(ny, nd) || !c05::mint_leaf(ss, sd) || !c05::mint_leaf(br, bd)) { fprintf(stderr, "[c05] cannot mint scenario leaves\n"); abort(); }
+            Verdict a1 = evaluate(dd, d, "localhost", NT_ANY, 0, 0, SC_DATED), a2 = evaluate(nd, ny, "localhost", NT_ANY, 0, 0, SC_DATED), a3 = evaluate(sd, ss, "localhost", NT_ANY, 0, 0, SC_SELF),
+                    a4 = evaluate(dd, d, "localhost", NT_ANY, 0, 0, SC_PLAIN), a5 = evaluate(bd, br, "localhost", NT_ANY, 0, 0, SC_PLAIN);
+            if (!a1.accept || !a2.accept || !a3.accept || a4.accept || !a5.accept) {
+                fprintf(stderr, "[c05] scenario self-test failed (issuer %d): expired rc=%d st=%d fl=0x%x ; not-yet rc=%d st=%d fl=0x%x ; self-signed parse=%d rc=%d st=%d fl=0x%x ; expired judged plainly accept=%d ; bitraw parse=%d rc=%d\n",
+                        iss, a1.rc, a1.auth, a1.flags, a2.rc, a2.auth, a2.flags, a3.parse_rc, a3.rc, a3.auth, a3.flags, a4.accept, a5.parse_rc, a5.rc);
+                abort();
+            }
         }
         HsResult h = handshake(iss, der, "localhost", NT_ANY, 0, 0, mxh::TLS12, 7), h3 = handshake(iss, der, "localhost", NT_ANY, 0, 0, mxh::TLS13, 7), hn = handshake(iss, der, "localhosu", NT_ANY, 0, 0, mxh::TLS12, 7);
         if (!h.client_complete || !h3.client_complete || hn.client_complete) {
